@@ -287,8 +287,12 @@ def r6(run):
     run.floor("handle_define call sites in commands::serve", len(defs), 2, sv.sp)
     during = []
     for c in defs:
-        src = [y[1] for y in walk(c.arg(0)) if y[0] == "call" and y[1].fn == C.MPSC_RECV]
-        direct = bool(src) and q.same_call(src[0], replay) and not any(y[0] == "call" and "hash::map::HashMap" in y[1].fn for y in walk(c.arg(0)))
+        # (whichever parameter carries the frame: private signatures get reordered)
+        direct = False
+        for a in c.arg_exprs():
+            src = [y[1] for y in walk(a) if y[0] == "call" and y[1].fn == C.MPSC_RECV]
+            if src and q.same_call(src[0], replay) and not any(y[0] == "call" and "hash::map::HashMap" in y[1].fn for y in walk(a)):
+                direct = True
         if direct and not q.dominated(sv, c.bb, via_edges=exits):
             during.append(c)
     run.ob(MOD + "::serve|replay-registers-each-define", len(during) >= 1, sv.sp,
